@@ -425,9 +425,17 @@ func TestVerif(t *testing.T) {
 		}
 		return
 	}
-	bound := ctx.Param("bound", 1)
+	maxBound := ctx.Param("bound", 1)
+	startBound := ctx.Param("start_bound", maxBound) // thorough: iterative deepening from the quick tier's bound
 	var nodes int64
+	completed := startBound - 1
+	for bound := startBound; bound <= maxBound; bound++ {
+	all := true
 	for ci, cf := range c03Configs(ctx.Quick()) {
+		if ctx.Expired() {
+			all = false
+			break
+		}
 		cf := cf
 		var o c03Obs
 		body := c03Body(cf, &o)
@@ -462,11 +470,12 @@ func TestVerif(t *testing.T) {
 			ctx.Infra("%s: %s", cf.Name, x)
 		}
 		if st.Capped {
+			all = false
 			ctx.Cap(fmt.Sprintf("%s: bound %d not completed", cf.Name, bound))
 		}
 		ctx.R.Trans += st.Steps
 		nodes += st.Nodes
-		ctx.R.Extra[fmt.Sprintf("execs_cfg%d", ci)] = st.Counted
+		ctx.R.Extra[fmt.Sprintf("execs_cfg%d_bound%d", ci, bound)] = st.Counted
 		ctx.Nontrivial(vr.HashS(cf.Name))
 		if st.MaxThreads > 0 {
 			if v, _ := ctx.R.Extra["max_threads"].(int); st.MaxThreads > v {
@@ -474,6 +483,14 @@ func TestVerif(t *testing.T) {
 			}
 		}
 	}
+	if !all {
+		if bound > startBound {
+			ctx.Cap(fmt.Sprintf("time budget reached while deepening to bound %d; every configuration is complete up to bound %d", bound, completed))
+		}
+		break
+	}
+	completed = bound
+	}
 	ctx.R.States = nodes
-	ctx.R.Extra["bound_completed"] = bound
+	ctx.R.Extra["bound_completed"] = completed
 }
